@@ -14,7 +14,8 @@ Client/server agreement, per protocol version (T-agree):
 pushes for that version (C02.2) and the spec; (2) the context accessor used for DELE and for SREP is the same on both sides;
 (3) the client's conversion of MIDP to (seconds, nanoseconds), as an extracted arithmetic expression, equals m div U and
 (m mod U) * (10^9 / U) with U the server's MIDP unit for that version (compared on a grid of inputs, expression equivalence);
-(4) verified is false exactly when no key was given; (5) the request the client builds per version has the tags the server's
+(4) verified is false exactly when no key was given; (4b) the delegation window the client enforces is closed on both sides
+(MINT <= MIDP <= MAXT: no strict comparison, no half-open range); (5) the request the client builds per version has the tags the server's
 parser requires (NONC; for RfcDraft13 VER with the draft-13 wire value, SRV = calc_srv_value(key) only with a key), is framed for
 RfcDraft13 only, the nonce has the protocol's length, and the response parser mirrors the server's framing.
 """
@@ -235,6 +236,17 @@ def run(ctx):
             ctx.check("verified-iff-key", "false-only-without-key", okf, "verified = false only when no key was supplied",
                       "verified can be false although a key was supplied", pfn.loc(b))
         ctx.floor("verified-iff-key", len(falses), 1, "`verified = false` sites")
+
+    # ------------------------------------------------------------------ (4b) the delegation window is closed on both sides
+    import rules.C01 as c01
+    comps = c01.enforced_comparisons(ctx, W)
+    nwin = 0
+    for name in ("mint<=midp", "midp<=maxt"):
+        for (fp, bb, info) in comps.get(name, []):
+            nwin += 1
+            ctx.check("window-inclusive", "%s@%s" % (name, fp.split("::")[-1]), info != "strict", "the client accepts a midpoint equal to the delegation bound (%s)" % name,
+                      "the client demands %s: an honest reply whose midpoint equals the delegation bound is refused" % name.replace("<=", " < "), P.fns[fp].loc(bb))
+    ctx.floor("window-inclusive", nwin, 2, "enforced MINT/MAXT comparisons in the client")
 
     # ------------------------------------------------------------------ (5) request shape
     mrq = ctx.fn("roughenough_client::make_request")
